@@ -50,8 +50,15 @@ CHECKS = {
                                   "c16_blur_mailbox-pruned": 20, "c16_blur_nameplate-pruned": 10}}),
 }
 
-for _c in CHECKS.values():
+LEVEL_TEXT = ("Exploration by runtime monitoring: the real server code is executed on thousands of generated and directed "
+              "histories and every relevant event is judged by a deterministic oracle over the recorded history. It decides the "
+              "property on the executions produced (counts, states and samples in the evidence), not for all histories.")
+for _pid, _c in CHECKS.items():
     _c.setdefault("assumptions", TRUST)
+    _c.setdefault("level_text", LEVEL_TEXT)
+    _c.setdefault("technique", "runtime monitoring: offline/online oracle over recorded histories of the real server")
+
+NOT_YET = {}
 
 
 def module_for(pid):
